@@ -344,7 +344,11 @@ def _set_task_deadline(task, deadline):
         _set_new_deadline(task, deadline)
     deadlines.append(deadline)
     task._deadlines = deadlines
-    task._timed_out = None
+    # Forget a stale record - but not that of an enclosing block's timeout that is still being
+    # delivered: a block entered while that cancellation unwinds (in a finally clause, say)
+    # must not make the enclosing block miss its own timeout
+    if getattr(task, '_timed_out', None) not in deadlines[:-1]:
+        task._timed_out = None
 
 
 def _unset_task_deadline(task):
